@@ -132,3 +132,27 @@ for _nm, _args, _req in (
         split=_TSPLIT, split_is_domain=True, modifies=["param:self"], properties=["C11"],
         battery="track_lift_tr" if _args else "track_lift",
         notes="domain: tracks of 0..2 bars of 0..2 entries each; event view over the bar operation")
+
+# which tuning a track is drawn with: the instrument's own if it has one, else the track's
+CLASSES["TuningT"] = {"class": "mingus.extra.tunings.StringTuning", "fields": {"tuning": "list[any]"}}
+CLASSES["InstrWithTuning"] = {"class": "mingus.containers.instrument.Instrument", "fields": {"tuning": "TuningT"}}
+CLASSES["InstrNoTuning"] = {"class": "mingus.containers.instrument.Instrument", "fields": {"tuning": "None"}}
+CLASSES["TrackTun0"] = {"class": "mingus.containers.track.Track", "fields": {"instrument": "None", "tuning": "TuningT"}}
+CLASSES["TrackTun1"] = {"class": "mingus.containers.track.Track", "fields": {"instrument": "InstrWithTuning", "tuning": "TuningT"}}
+CLASSES["TrackTun2"] = {"class": "mingus.containers.track.Track", "fields": {"instrument": "InstrNoTuning", "tuning": "TuningT"}}
+CONTRACTS[M + "get_tuning"] = dict(
+    params={"self": "TrackTun0"}, returns="TuningT", ensures=[("the-tracks-own", "same_object(result, self.tuning)")],
+    modifies=[], properties=["C20"], battery=None,
+    variants=[dict(name="instrument-with-tuning", params={"self": "TrackTun1"},
+                   ensures=[("the-instruments", "same_object(result, self.instrument.tuning)")]),
+              dict(name="instrument-without-tuning", params={"self": "TrackTun2"},
+                   ensures=[("the-tracks-own", "same_object(result, self.tuning)")])])
+CONTRACTS[M + "set_tuning"] = dict(
+    params={"self": "TrackTun0", "tuning": "TuningT"}, returns="TrackTun0",
+    ensures=[("returns-the-track", "same_object(result, self)"), ("stored-on-the-track", "same_object(self.tuning, tuning)")],
+    modifies=["param:self"], properties=["C20"], battery=None,
+    variants=[dict(name="with-instrument", params={"self": "TrackTun2", "tuning": "TuningT"}, returns="TrackTun2",
+                   ensures=[("returns-the-track", "same_object(result, self)"),
+                            ("stored-on-the-track-and-the-instrument",
+                             "same_object(self.tuning, tuning) and same_object(self.instrument.tuning, tuning)")],
+                   modifies=["param:self", "param:self.instrument"])])
